@@ -1,7 +1,7 @@
 ----------------------------------- MODULE HatSystems -----------------------------------
 (* Linear systems of the hat basis on (non-)uniform tensor grids without boundary points (C16, C20). *)
 (* Static model: Init enumerates 1-D refinement-tree grids (positions on the lattice 0..LAT), their    *)
-(* tensor products (D = 1, 2), small data sets on the lattice (incl. samples on grid lines and on the   *)
+(* tensor products (D = 1, 2, 3), small data sets on the lattice (incl. samples on grid lines and on the   *)
 (* domain boundary) and class labels; the exact Gram (mass) matrix, its lumped diagonal, the stiffness  *)
 (* matrix and the right-hand side are derived from the definition of the basis and kept in variables.   *)
 (* All numbers are rationals in lattice units (one lattice unit = 1/LAT of the unit interval).          *)
@@ -23,7 +23,9 @@ RECURSIVE RProd(_, _)
 RProd(f, n) == IF n = 0 THEN Q(1) ELSE RMul(f[n], RProd(f, n - 1))
 RECURSIVE RSum(_, _)
 RSum(f, n) == IF n = 0 THEN Q(0) ELSE RAdd(f[n], RSum(f, n - 1))
-Points(G) == IF Len(G) = 1 THEN {<<i>> : i \in Inner(G[1])} ELSE {<<i, j>> : i \in Inner(G[1]), j \in Inner(G[2])}
+Points(G) == IF Len(G) = 1 THEN {<<i>> : i \in Inner(G[1])}
+             ELSE IF Len(G) = 2 THEN {<<i, j>> : i \in Inner(G[1]), j \in Inner(G[2])}
+             ELSE {<<i, j, k>> : i \in Inner(G[1]), j \in Inner(G[2]), k \in Inner(G[3])}
 Mass(G) == [pq \in Points(G) \X Points(G) |-> RProd([d \in 1..Len(G) |-> M1(G[d], pq[1][d], pq[2][d])], Len(G))]
 (* gradient Gram matrix: sum over the derivative dimension k of  stiffness in k  x  mass in the other dimensions *)
 Stiff(G) == [pq \in Points(G) \X Points(G) |->
